@@ -42,3 +42,8 @@ package sonic
 //@   witness pos int = dec.i
 //@   ensures derr != nil ==> result == derr
 //@   ensures derr == nil ==> ((result == nil) <==> (forall k int :: (pos <= k && k < len(buf)) ==> (buf[k] == 0x20 || buf[k] == 0x09 || buf[k] == 0x0d || buf[k] == 0x0a)))
+
+// Valid (C02): the frozen API's Valid is exactly the validator's accept condition
+// (one value, then only white space).
+//@ func (frozenConfig).Valid props C02
+//@   ensures result == alg.validOK(data)
